@@ -44,6 +44,26 @@ def _exec_rev(sc):
         current = {}
         for step in sc["ops"]:
             k = step[0]
+            try:
+                _one_step(step, k, sc, model, current, prior, evs, n, sig)
+            except BaseException as e:  # an exception of the code under test is an observation, not a harness failure
+                if isinstance(e, (KeyboardInterrupt, SystemExit)):
+                    raise
+                evs.append({"ev": "error", "op": k, "exc": type(e).__name__ + ": " + str(e)[:200]})
+                break
+    except BaseException as e:
+        if isinstance(e, (KeyboardInterrupt, SystemExit)):
+            raise
+        out["error"] = "harness: " + type(e).__name__ + ": " + str(e)[:300]
+    return out
+
+
+def _one_step(step, k, sc, model, current, prior, evs, n, sig):
+    import impl
+    from inference.c_revision import c_revision, compile_alt, compile_alt_fast
+
+    if True:
+        if True:
             if k == "add":
                 i, c = step[1], sc["cands"][step[2]]
                 try:
@@ -69,7 +89,7 @@ def _exec_rev(sc):
                 fixm = {i: v for i, v in fixm.items() if i in current}
                 lst = [_mk_cond(c, i) for i, c in current.items()]
                 if not lst:
-                    continue
+                    return
                 bound = max(sc["prior"]) + (1 << max(0, len(lst) - 1)) + 1
                 rec = {"ev": "crev", "plusZero": plus_zero, "fixp": [[i, v] for i, v in fixp.items()], "fixm": [[i, v] for i, v in fixm.items()], "kind": "model" if use_model else "fresh",
                        "bound": bound, "pbound": max([0 if plus_zero else 1] + list(fixp.values())), "gp": [], "gm": []}
@@ -92,11 +112,6 @@ def _exec_rev(sc):
                     rec["result"] = "error"
                     rec["exc"] = type(e).__name__ + ": " + str(e)[:200]
                 evs.append(rec)
-    except BaseException as e:
-        if isinstance(e, (KeyboardInterrupt, SystemExit)):
-            raise
-        out["error"] = "harness: " + type(e).__name__ + ": " + str(e)[:300]
-    return out
 
 
 def gen_scenario(rng, tier):
